@@ -7,7 +7,17 @@
 //	persist  kind=seg|snp id=N data=SPEC prior=absent|SPEC chunks=-|n,n,… fault=none|wfail:K|cancel:K|syncfail|lockbusy|noent
 //	tpersist …same…   the scenario runs in a child process under strace; the result carries the system calls
 //	remove   kind=… id=N prior=absent|SPEC lock=none|shared|exclusive
+//	pid      steps=A:lock,B:lock,A:unlock,…      FileSystemDirectory.Lock / Unlock, one object per actor, one directory
+//	tpid     steps=A:lock,A:unlock               the same under strace (the system calls on bluge.pid, in order)
+//	writers  steps=1:open,2:open,1:close,…       the real index.OpenWriter / Writer.Close over FileSystemDirectory
+//	load     kind=… id=N prior=SPEC mode=mm|nm steps=load,remove,load2,persist,close,close2,…
+//	                                             a reader object Loads the item (LoadMMapAlways | LoadMMapNever); `remove` / `persist`
+//	                                             are done by ANOTHER object; `close` runs the closer Load returned
+//	tload    (same, steps=load,close)            under strace
 //	SPEC = hex:HEX | pat:SEED:LEN     (byte i = (SEED + 7i + 13(i/251)) mod 256)
+//
+// pid / writers: after every step `<ok|err|panic>/<absent|pid|empty|other>` (the content of bluge.pid: `pid` = this
+// process's pid line). load: after every step `<ok|err|panic>[:LEN:HEX|#FNV of the loaded data]/<file as below>`.
 //
 // Observed per scenario: the return value (ok/err), the bytes of the item's file afterwards
 // (absent | LEN:HEX for ≤ 40 bytes | LEN:#FNV64), every other file of the directory (a bystander item
@@ -36,7 +46,7 @@ import (
 type h struct{}
 
 func (h) Rule() string {
-	return "every combination of item size {0,1,4095,4096,4097,196609} × prior file {absent, shorter, equal, longer by 1/18/4096} × chunking {one write, boundary chunks} without fault; writer failure and cancellation after k bytes for k in {0,1,size/2,size-1,size,4096,65536}, Sync failure, busy lock, missing directory; both item kinds; Remove with and without a lock held by a reader; a traced subset (strace) for the system-call order; seeded random scenarios. A case is non-trivial when a prior file exists or a fault is injected or the writer uses more than one write; distinct by op line without the id"
+	return "every combination of item size {0,1,4095,4096,4097,196609} × prior file {absent, shorter, equal, longer by 1/18/4096} × chunking {one write, boundary chunks} without fault; writer failure and cancellation after k bytes for k in {0,1,size/2,size-1,size,4096,65536}, Sync failure, busy lock, missing directory; both item kinds; Remove with and without a lock held by a reader; a traced subset (strace) for the system-call order; seeded random scenarios; Lock/Unlock sequences of three directory objects on one directory and OpenWriter/Close sequences of three real writers (pid file state after every step); Load through both loaders against Remove/Persist by another object and the closers, with traced subsets. A case is non-trivial when a prior file exists or a fault is injected or the writer uses more than one write; distinct by op line without the id"
 }
 
 // ---------------------------------------------------------------- scenario description
@@ -309,10 +319,233 @@ func runScenario(op string, m map[string]string, dir string) string {
 	})
 }
 
+// ---------------------------------------------------------------- Lock / Unlock, OpenWriter / Close, Load
+
+func pidState(dir string) string {
+	b, err := os.ReadFile(filepath.Join(dir, "bluge.pid"))
+	if err != nil {
+		if os.IsNotExist(err) {
+			return "absent"
+		}
+		return "unreadable"
+	}
+	switch {
+	case string(b) == fmt.Sprintf("%d\n", os.Getpid()):
+		return "pid"
+	case len(b) == 0:
+		return "empty"
+	}
+	return "other"
+}
+
+func okErr(err error) string {
+	if err != nil {
+		return "err"
+	}
+	return "ok"
+}
+
+// runPid: FileSystemDirectory.Lock / Unlock by several directory objects on one directory.
+func runPid(m map[string]string, dir string, marks bool) string {
+	_ = os.RemoveAll(dir)
+	if err := os.MkdirAll(dir, 0o755); err != nil {
+		return "harness-error"
+	}
+	defer os.RemoveAll(dir)
+	actors := map[string]*index.FileSystemDirectory{}
+	var order []string
+	var out []string
+	if marks {
+		_ = os.Remove(beginMark)
+	}
+	for _, st := range strings.Split(m["steps"], ",") {
+		w := strings.SplitN(st, ":", 2)
+		if len(w) != 2 {
+			return "harness-error"
+		}
+		d := actors[w[0]]
+		if d == nil {
+			d = index.NewFileSystemDirectory(dir)
+			actors[w[0]] = d
+			order = append(order, w[0])
+		}
+		res := hlib.Catch(func() string {
+			switch w[1] {
+			case "lock":
+				return okErr(d.Lock())
+			case "unlock":
+				return okErr(d.Unlock())
+			}
+			return "bad-step"
+		})
+		if marks {
+			out = append(out, res+"/-") // no read of the pid file while the system calls are being recorded
+		} else {
+			out = append(out, res+"/"+pidState(dir))
+		}
+	}
+	if marks {
+		_ = os.Remove(endMark)
+	}
+	for _, a := range order { // release whatever is still held
+		d := actors[a]
+		_ = hlib.Catch(func() string { _ = d.Unlock(); return "" })
+	}
+	return strings.Join(out, ",")
+}
+
+// runWriters: the real OpenWriter / Close, several writers on one directory.
+func runWriters(m map[string]string, dir string) string {
+	_ = os.RemoveAll(dir)
+	if err := os.MkdirAll(dir, 0o755); err != nil {
+		return "harness-error"
+	}
+	defer os.RemoveAll(dir)
+	writers := map[string]*index.Writer{}
+	var out []string
+	for _, st := range strings.Split(m["steps"], ",") {
+		w := strings.SplitN(st, ":", 2)
+		if len(w) != 2 {
+			return "harness-error"
+		}
+		res := hlib.Catch(func() string {
+			switch w[1] {
+			case "open":
+				wr, err := index.OpenWriter(index.DefaultConfig(dir))
+				if err == nil {
+					writers[w[0]] = wr
+				}
+				return okErr(err)
+			case "close":
+				wr := writers[w[0]]
+				if wr == nil {
+					return "not-open"
+				}
+				delete(writers, w[0])
+				return okErr(wr.Close())
+			}
+			return "bad-step"
+		})
+		out = append(out, res+"/"+pidState(dir))
+	}
+	for _, wr := range writers {
+		wr := wr
+		_ = hlib.Catch(func() string { _ = wr.Close(); return "" })
+	}
+	return strings.Join(out, ",")
+}
+
+type closerLike interface{ Close() error }
+
+// runLoad: Load through a reader object, Remove / Persist through another one, the closers.
+func runLoad(m map[string]string, dir string, marks bool) string {
+	id, _ := strconv.ParseUint(m["id"], 10, 64)
+	ext := kindExt(m["kind"])
+	name := fmt.Sprintf("%012x", id) + ext
+	_ = os.RemoveAll(dir)
+	if err := os.MkdirAll(dir, 0o755); err != nil {
+		return "harness-error"
+	}
+	defer os.RemoveAll(dir)
+	if p := m["prior"]; p != "" && p != "absent" {
+		b, ok := parseSpec(p)
+		if !ok {
+			return "harness-error"
+		}
+		if err := os.WriteFile(filepath.Join(dir, name), b, 0o600); err != nil {
+			return "harness-error"
+		}
+	}
+	mk := func() *index.FileSystemDirectory {
+		d := index.NewFileSystemDirectory(dir)
+		if m["mode"] == "nm" {
+			d.SetLoadMMapFunc(index.LoadMMapNever)
+		} else {
+			d.SetLoadMMapFunc(index.LoadMMapAlways)
+		}
+		return d
+	}
+	readers := map[string]*index.FileSystemDirectory{"": mk(), "2": mk()}
+	other := index.NewFileSystemDirectory(dir)
+	closers := map[string]closerLike{}
+	fileNow := func() string {
+		if b, err := os.ReadFile(filepath.Join(dir, name)); err == nil {
+			return render(b)
+		}
+		return "absent"
+	}
+	var out []string
+	if marks {
+		_ = os.Remove(beginMark)
+	}
+	for _, st := range strings.Split(m["steps"], ",") {
+		res := hlib.Catch(func() string {
+			switch st {
+			case "load", "load2":
+				k := strings.TrimPrefix(st, "load")
+				if closers[k] != nil {
+					return "already-loaded"
+				}
+				data, cl, err := readers[k].Load(ext, id)
+				if err != nil {
+					return "err"
+				}
+				closers[k] = cl
+				b, err := data.Read(0, data.Len())
+				if err != nil {
+					return "ok:unreadable"
+				}
+				return "ok:" + render(b)
+			case "close", "close2":
+				k := strings.TrimPrefix(st, "close")
+				cl := closers[k]
+				if cl == nil {
+					return "not-loaded"
+				}
+				delete(closers, k)
+				return okErr(cl.Close())
+			case "remove":
+				return okErr(other.Remove(ext, id))
+			case "persist":
+				return okErr(other.Persist(ext, id, &writer{data: []byte("NEW!"), stop: -1}, make(chan struct{})))
+			}
+			return "bad-step"
+		})
+		if marks {
+			out = append(out, res+"/-")
+		} else {
+			out = append(out, res+"/"+fileNow())
+		}
+	}
+	if marks {
+		_ = os.Remove(endMark)
+	}
+	for _, cl := range closers {
+		cl := cl
+		_ = hlib.Catch(func() string { _ = cl.Close(); return "" })
+	}
+	return strings.Join(out, ",")
+}
+
+// runLine executes one script line of any kind in `dir` (used by the strace child).
+func runLine(line string, dir string) string {
+	ws := strings.Split(line, " ")
+	m := kvs(ws[1:])
+	switch ws[0] {
+	case "persist", "tpersist":
+		return runScenario("persist", m, dir)
+	case "tpid":
+		return runPid(m, dir, true)
+	case "tload":
+		return runLoad(m, dir, true)
+	}
+	return "bad-op"
+}
+
 // ---------------------------------------------------------------- strace
 
 var reLine = regexp.MustCompile(`^(\d+)\s+(.*)$`)
-var reCall = regexp.MustCompile(`^(\w+)\((.*)\)\s+=\s+(-?\d+|\?)(.*)$`)
+var reCall = regexp.MustCompile(`^(\w+)\((.*)\)\s+=\s+(-?\d+|0x[0-9a-f]+|\?)(.*)$`)
 
 // traceOf runs the scenario in a child under strace and returns (observation, system calls on the item's path).
 func traceOf(line string, dir string, work string) string {
@@ -323,7 +556,7 @@ func traceOf(line string, dir string, work string) string {
 	tf := filepath.Join(work, "strace.txt")
 	_ = os.Remove(tf)
 	cmd := exec.Command("strace", "-f", "-qq", "-o", tf,
-		"-e", "trace=openat,open,flock,ftruncate,write,pwrite64,writev,fsync,fdatasync,sync_file_range,close,unlink,unlinkat,rename,renameat,renameat2",
+		"-e", "trace=openat,open,flock,ftruncate,write,pwrite64,writev,fsync,fdatasync,sync_file_range,close,unlink,unlinkat,rename,renameat,renameat2,mmap,munmap",
 		self, "child", dir, line)
 	outb, err := cmd.Output()
 	if err != nil {
@@ -337,6 +570,10 @@ func traceOf(line string, dir string, work string) string {
 	m := kvs(strings.Split(line, " "))
 	id, _ := strconv.ParseUint(m["id"], 10, 64)
 	path := filepath.Join(dir, fmt.Sprintf("%012x", id)+kindExt(m["kind"]))
+	if strings.HasPrefix(line, "tpid ") {
+		path = filepath.Join(dir, "bluge.pid")
+	}
+	mapped := "" // address of the mapping of our descriptor
 	// join "<unfinished ...>" with "<... resumed>"
 	pending := map[string]string{}
 	var calls []string
@@ -359,7 +596,8 @@ func traceOf(line string, dir string, work string) string {
 		calls = append(calls, rest)
 	}
 	in := false
-	fd := ""
+	fds := map[string]bool{} // descriptors open on the path
+	last := ""               // the most recent of them
 	var evs []string
 	errs := func(ret string) string {
 		if strings.HasPrefix(ret, "-") {
@@ -386,7 +624,8 @@ func traceOf(line string, dir string, work string) string {
 		}
 		a := strings.Split(args, ", ")
 		onPath := strings.Contains(args, `"`+path+`"`)
-		onFd := fd != "" && len(a) > 0 && a[0] == fd
+		onFd := len(a) > 0 && fds[a[0]]
+		_ = last
 		switch name {
 		case "openat", "open":
 			if !onPath {
@@ -413,7 +652,8 @@ func traceOf(line string, dir string, work string) string {
 			}
 			evs = append(evs, "open["+strings.Join(fl, "|")+"]:"+mode+errs(ret))
 			if !strings.HasPrefix(ret, "-") {
-				fd = ret
+				fds[ret] = true
+				last = ret
 			}
 		case "flock":
 			if onFd && len(a) > 1 {
@@ -451,11 +691,26 @@ func traceOf(line string, dir string, work string) string {
 		case "close":
 			if onFd && !strings.HasPrefix(ret, "-") {
 				evs = append(evs, "close")
-				fd = ""
+				delete(fds, a[0])
 			}
 		case "unlink", "unlinkat":
 			if onPath {
 				evs = append(evs, "unlink"+errs(ret))
+			}
+		case "mmap":
+			// mmap(NULL, len, PROT_READ, MAP_SHARED, fd, 0) = addr
+			if len(a) >= 5 && fds[a[4]] {
+				if strings.HasPrefix(ret, "-") {
+					evs = append(evs, "mmap=err")
+				} else {
+					evs = append(evs, "mmap")
+					mapped = ret
+				}
+			}
+		case "munmap":
+			if mapped != "" && len(a) >= 1 && a[0] == mapped {
+				evs = append(evs, "munmap")
+				mapped = ""
 			}
 		case "rename", "renameat", "renameat2":
 			if onPath {
@@ -463,11 +718,13 @@ func traceOf(line string, dir string, work string) string {
 			}
 		}
 	}
-	r := "ret:ok"
-	if !strings.HasPrefix(obs, "ok") {
-		r = "ret:err"
+	if strings.HasPrefix(line, "tpersist ") {
+		r := "ret:ok"
+		if !strings.HasPrefix(obs, "ok") {
+			r = "ret:err"
+		}
+		evs = append(evs, r)
 	}
-	evs = append(evs, r)
 	return obs + " trace=" + strings.Join(evs, ",")
 }
 
@@ -621,6 +878,102 @@ func (h) Gen(r *hlib.Rand, tier string, scale int, emit func(string)) {
 			}
 		}
 	}
+	// 7. Lock / Unlock: several directory objects on one directory
+	for _, steps := range []string{
+		"A:lock", "A:lock,A:unlock", "A:lock,B:lock", "A:lock,B:lock,C:lock", "A:lock,B:lock,A:unlock,B:lock",
+		"A:lock,A:unlock,B:lock,B:unlock,A:lock", "A:lock,B:lock,B:lock,A:unlock,B:lock,C:lock",
+		"A:lock,A:unlock,A:unlock", "A:lock,A:lock", "A:lock,B:lock,C:lock,A:unlock,C:lock,B:lock,C:unlock,B:lock",
+	} {
+		emit("pid steps=" + steps)
+	}
+	emit("tpid steps=A:lock,A:unlock")
+	emit("tpid steps=A:lock,B:lock,A:unlock")
+	// the same through the real writer: a refused OpenWriter must leave the first writer's lock file alone
+	for _, steps := range []string{
+		"1:open,1:close", "1:open,2:open", "1:open,2:open,3:open", "1:open,2:open,3:open,1:close,2:open",
+		"1:open,1:close,2:open,2:close,1:open", "1:open,2:open,2:open,1:close,3:open,2:open",
+	} {
+		emit("writers steps=" + steps)
+	}
+	pn := 40 * scale
+	if tier == "thorough" {
+		pn = 600 * scale
+	}
+	for i := 0; i < pn; i++ {
+		var st []string
+		acts := []string{"A", "B", "C"}
+		held := map[string]bool{}
+		for j := r.Range(2, 9); j > 0; j-- {
+			a := acts[r.Intn(3)]
+			op := "lock"
+			// mostly sensible (unlock what is held), sometimes not (double lock, unlock of a failed lock)
+			if held[a] && r.Chance(70) {
+				op = "unlock"
+			} else if !held[a] && r.Chance(8) {
+				op = "unlock"
+			}
+			if op == "lock" {
+				free := true
+				for _, v := range held {
+					if v {
+						free = false
+					}
+				}
+				if free {
+					held[a] = true
+				}
+			} else if held[a] {
+				held[a] = false
+			}
+			st = append(st, a+":"+op)
+		}
+		if i%5 == 4 {
+			// writer level: open / close only for writers that are open (Close of a refused writer does not exist)
+			var ws []string
+			open := map[string]bool{}
+			anyOpen := false
+			for j := r.Range(2, 7); j > 0; j-- {
+				a := []string{"1", "2", "3"}[r.Intn(3)]
+				if open[a] && r.Chance(60) {
+					ws = append(ws, a+":close")
+					open[a] = false
+					anyOpen = false
+				} else if !open[a] {
+					ws = append(ws, a+":open")
+					if !anyOpen {
+						open[a] = true
+						anyOpen = true
+					}
+				}
+			}
+			if len(ws) > 0 {
+				emit("writers steps=" + strings.Join(ws, ","))
+			}
+			continue
+		}
+		emit("pid steps=" + strings.Join(st, ","))
+	}
+	// 8. Load and its closer against Remove / Persist by somebody else
+	for _, mode := range []string{"mm", "nm"} {
+		for ki, k := range kinds {
+			for _, p := range []string{specOf(9, 10), specOf(11, 5000), specOf(12, 0), "absent"} {
+				for si, steps := range []string{
+					"load,remove,close,remove", "load,load2,remove,close,remove,close2,remove", "load,persist,close,persist",
+					"load,close,close", "remove,load", "load,load2,close,persist,close2,remove",
+				} {
+					if tier != "thorough" && (si+ki)%2 == 1 && p != specOf(9, 10) {
+						continue
+					}
+					id := g.nextID()
+					emit(fmt.Sprintf("load kind=%s id=%d prior=%s mode=%s steps=%s", k, id, p, mode, steps))
+				}
+			}
+		}
+		id := g.nextID()
+		emit(fmt.Sprintf("tload kind=seg id=%d prior=%s mode=%s steps=load,close", id, specOf(3, 100), mode))
+		id = g.nextID()
+		emit(fmt.Sprintf("tload kind=snp id=%d prior=%s mode=%s steps=load,remove,close,remove", id, specOf(4, 4097), mode))
+	}
 	// 6. seeded random scenarios
 	cnt := 150 * scale
 	if tier == "thorough" {
@@ -734,6 +1087,41 @@ func (h) Exec(line string, out func(string, string), st *hlib.Stats, work string
 		}
 		st.Count("res:" + strings.Split(res, " ")[0])
 		out(line, res)
+	case "pid", "writers", "load", "tpid", "tload":
+		m := kvs(ws[1:])
+		var res string
+		switch ws[0] {
+		case "pid":
+			res = runPid(m, dir, false)
+		case "writers":
+			res = runWriters(m, dir)
+		case "load":
+			res = runLoad(m, dir, false)
+		default:
+			res = traceOf(line, dir, work)
+			if strings.HasPrefix(res, "harness-error:strace") {
+				st.Count("strace-unavailable")
+				line = strings.TrimPrefix(line, "t")
+				if ws[0] == "tpid" {
+					res = runPid(m, dir, false)
+				} else {
+					res = runLoad(m, dir, false)
+				}
+			}
+		}
+		_ = os.RemoveAll(filepath.Dir(dir))
+		key := ws[0]
+		for _, w := range ws[1:] {
+			if !strings.HasPrefix(w, "id=") {
+				key += " " + w
+			}
+		}
+		st.Case(key, strings.Count(m["steps"], ",") >= 1)
+		st.Count("op:" + ws[0])
+		for _, r := range strings.Split(strings.Split(res, " ")[0], ",") {
+			st.Count("step-res:" + strings.Split(strings.Split(r, "/")[0], ":")[0])
+		}
+		out(line, res)
 	default:
 		out(line, "bad-op")
 	}
@@ -741,9 +1129,7 @@ func (h) Exec(line string, out func(string, string), st *hlib.Stats, work string
 
 func main() {
 	if len(os.Args) >= 4 && os.Args[1] == "child" {
-		line := os.Args[3]
-		ws := strings.Split(line, " ")
-		fmt.Println(runScenario("persist", kvs(ws[1:]), os.Args[2]))
+		fmt.Println(runLine(os.Args[3], os.Args[2]))
 		return
 	}
 	hlib.Main(h{})
